@@ -566,12 +566,25 @@ impl<'de> serde::Deserializer<'de> for &'de Value {
     #[inline]
     fn deserialize_newtype_struct<V>(
         self,
-        _name: &'static str,
+        name: &'static str,
         visitor: V,
     ) -> Result<V::Value, Error>
     where
         V: Visitor<'de>,
     {
+        if name == TOKEN {
+            // the target is a `Value` (or `Array` / `Object`) itself: hand a clone over through the
+            // same private protocol the text deserializer uses (`ValueVisitor::visit_bytes` takes
+            // ownership of the bits)
+            let val = std::mem::ManuallyDrop::new(self.clone());
+            let binary = unsafe {
+                slice::from_raw_parts(
+                    &*val as *const Value as *const u8,
+                    std::mem::size_of::<Value>(),
+                )
+            };
+            return visitor.visit_bytes(binary);
+        }
         visitor.visit_newtype_struct(self)
     }
 
